@@ -231,11 +231,59 @@ def native_env(reg: Registry, extra: Optional[Dict[str, Any]] = None) -> Dict[st
             text = cc.requires if which == "pre" else (cc.ensures_text() or "True")
             return bool(eval_clause(text, reg, bind))
         return f
+    env.update(_native_smt_ops())
     env["post"] = _clause_of("post")
     env["pre"] = _clause_of("pre")
     if extra:
         env.update(extra)
     return env
+
+
+class _Unspecified:
+    """value of an SMT-LIB term that the theory leaves unspecified (x mod 0)"""
+    def __eq__(self, other): return False
+    def __ne__(self, other): return True
+    def __repr__(self): return "<unspecified by SMT-LIB>"
+    __hash__ = object.__hash__
+
+
+def _native_smt_ops() -> Dict[str, Any]:
+    """the specification side evaluated by the repo's own z3 (only under /venv/bin/python)"""
+    try:
+        import z3
+    except Exception:       # pragma: no cover
+        return {}
+
+    def val(e):
+        r = z3.simplify(e)
+        if z3.is_int_value(r): return r.as_long()
+        if z3.is_string_value(r):
+            s = r.as_string()
+            # z3 prints non-ASCII / control characters as \u{..}
+            import re as _re
+            return _re.sub(r"\\u\{([0-9a-fA-F]+)\}", lambda m: chr(int(m.group(1), 16)), s)
+        if z3.is_true(r): return True
+        if z3.is_false(r): return False
+        return _Unspecified()
+
+    def S(x):
+        out = ""
+        for ch in x:
+            o = ord(ch)
+            out += ch if 32 <= o < 127 and ch not in "\\" else "\\u{%x}" % o
+        return z3.StringVal(out)
+    I = z3.IntVal
+    return {
+        "smt_mod": lambda a, b: val(I(a) % I(b)),
+        "smt_div": lambda a, b: val(I(a) / I(b)),
+        "smt_abs": lambda a: abs(a),
+        "smt_len": lambda s: val(z3.Length(S(s))),
+        "smt_concat": lambda s, t: val(z3.Concat(S(s), S(t))),
+        "smt_at": lambda s, i: val(S(s).at(I(i))),
+        "smt_substr": lambda s, i, n: val(z3.SubString(S(s), I(i), I(n))),
+        "smt_to_code": lambda s: val(z3.StrToCode(S(s))),
+        "smt_str_lt": lambda s, t: val(S(s) < S(t)),
+    }
 
 
 def eval_clause(text: str, reg: Registry, bindings: Dict[str, Any], extra: Optional[Dict[str, Any]] = None):
